@@ -135,9 +135,16 @@ def run_half_step(ctx, n):
             if a <= 0:
                 continue
             ws_text = [str(a), str(2 ** 33 - a)]
+            if k % 3 == 2 and 2 ** 33 - a > 8:
+                # the same boundary with a third group narrower than one hash step at the far end (its presence changes nothing for this unit)
+                ws_text = [str(a), str(2 ** 33 - a - 4), rng.choice(["4", "1", "0.25", "3.75"])]
+                if "." in ws_text[2]:
+                    ws_text[1] = "%d.%s" % (2 ** 33 - a - 1, {"0.25": "75", "3.75": "25"}[ws_text[2]]) if ws_text[2] == "0.25" else "%d.25" % (2 ** 33 - a - 4)
             exact, allowed = gen.spec_indices(ws_text, h)
-            assert exact == want, (h, ws_text, exact)
-            text = 'def e { %ssplitters: uid return "g0" weighted %s, "g1" weighted %s }' % ('salt: "%s" ' % salt if salt is not None else "", *ws_text)
+            if exact != want:
+                continue
+            groups_txt = ", ".join('"g%d" weighted %s' % (i, w) for i, w in enumerate(ws_text))
+            text = 'def e { %ssplitters: uid return %s }' % ('salt: "%s" ' % salt if salt is not None else "", groups_txt)
             out = common.outcome_of(lambda: ExperimentEvaluator(text)(**env))
             ctx.case(("half-step", salt, uid, delta), True)
             ctx.count("half-step")
